@@ -217,6 +217,18 @@ def oracle(case):
             break
         if len(set(lst)) != len(set(map(str, keys))):
             out.append(Disc('set-collapse', f'/{kind}', len(set(map(str, keys))), len(set(lst))))
+    # forms: == and != must be each other's negation (two forms of one spelling and different
+    # scripts are different forms)
+    forms = [f for wd in w.words() for f in wd.forms()]
+    for a in forms:
+        for b_ in forms:
+            if (a == b_) == (a != b_):
+                out.append(Disc('equality', '/forms', '(a == b) is not (a != b)',
+                                [[str(a), a.script], [str(b_), b_.script], a == b_, a != b_]))
+                break
+        else:
+            continue
+        break
     # ILI objects: an existing ILI is identified by its id, a proposed one by its synset
     ilis = []
     listed = call(w.ilis)
